@@ -27,6 +27,10 @@ def _mesa():
 _CLASSES = None
 
 
+class CallbackRaised(Exception):
+    """what a callback whose script says `raise` raises; nothing in mesa may catch it"""
+
+
 class _Override:
     """a per-instance replacement of the method `act` (strategy pattern: `agent.act = something`).  It holds the agent
     weakly - an instance attribute referring back to its owner strongly would be a reference cycle, and the harness
@@ -208,6 +212,18 @@ class WorldImpl:
                 self.create(m, ty, h, [0] * n, scalar=None if n == 1 else 0)
             elif k == "unhold":
                 self.unhold(act[1])
+            elif k in ("add", "discard"):
+                # the callback edits a program-made set - possibly the one being activated
+                _, ks, b = act
+                if ks < len(self.sets):
+                    o = self.deref(b)
+                    if o is not None:
+                        self.trace.append(("setedit", ks, k, b))
+                        getattr(self.sets[ks][0], k)(o)
+                    del o
+            elif k == "raise":
+                self.trace.append(("raise", aid))
+                raise CallbackRaised(aid)
             else:
                 raise ValueError(act)
         self.trace.append(("return", aid))
@@ -324,6 +340,27 @@ class WorldImpl:
         if k == "remove":
             self.remove(int(w[1]))
             return self.ok()
+        if k == "register":
+            # the program calls model.register_agent(agent) itself (Agent.__init__ already did, unless it was removed since)
+            o = self.deref(int(w[1]))
+            if o is not None:
+                self.trace.append(("register", int(w[1])))
+                o.model.register_agent(o)
+            del o
+            return self.ok()
+        if k == "deregister":
+            o = self.deref(int(w[1]))
+            if o is None:
+                return self.ok()
+            self.trace.append(("remove", int(w[1])))  # (before the call: the death callback, if any, must come after it)
+            try:
+                o.model.deregister_agent(o)
+            except KeyError:
+                self.trace.append(("rejected", int(w[1])))
+                del o
+                return "err Key"
+            del o
+            return self.ok()
         if k == "removeall":
             self.trace.append(("removeall", int(w[1])))
             self.models[int(w[1])].remove_all_agents()
@@ -402,6 +439,18 @@ class WorldImpl:
                                [ix(c) for c in classes_], None if got is None else [ix(c) for c in got], err, arg, kw.get("tag")))
             self.named_calls = []
             del classes_, got
+        raised = False
+        try:
+            res = self._dispatch(k, s, key, how, method, pa, kw)
+        except CallbackRaised:
+            # (the exception is not bound to a name: its traceback would keep the frames - and the agents in them - alive)
+            raised = True
+        after = self.ids(s)
+        self.trace.append(("endcall", after, raised))
+        return self.ok("log=" + self.take_log() + (" raised" if raised else res))
+
+    def _dispatch(self, k, s, key, how, method, pa, kw):
+        res = ""
         if k == "do":
             r = s.do(method, *pa, **kw)
             assert r is s
@@ -425,9 +474,7 @@ class WorldImpl:
                 res = " res=" + ";".join(f"{kk}:{'.'.join(map(str, v))}" for kk, v in r.items())
                 self.trace.append(("result", [(kk, list(v)) for kk, v in r.items()]))
             del gb, r
-        after = self.ids(s)
-        self.trace.append(("endcall", after))
-        return self.ok("log=" + self.take_log() + res)
+        return res
 
     def close(self):
         """mesa keeps every model forever in the class-level `Agent._ids`; do not leak across scenarios"""
@@ -460,11 +507,16 @@ def gen_script_rng(R):
     return ",".join(str(R.randrange(0, 50)) for _ in range(n)) if n else "-"
 
 
-def gen_actions(R, n_agents, n_models, live=None):
+def gen_actions(R, n_agents, n_models, live=None, n_sets=0):
     acts = []
     for _ in range(R.choice([0, 1, 1, 1, 2, 3])):
         k = R.random()
-        if k < 0.25:
+        if n_sets and R.random() < 0.2:
+            # the callback edits a program-made set (one time in two the first one, which activations favour)
+            ks = 0 if R.random() < 0.5 else R.randrange(n_sets + 1)
+            b = R.choice(live) if live and R.random() < 0.85 else R.randrange(0, n_agents + 3)
+            acts.append(f"{R.choice(['add', 'discard', 'discard'])} {ks} {b}")
+        elif k < 0.25:
             acts.append("rmself")
         elif k < 0.65:
             # mostly agents that exist now (earlier or later members of the sets being activated)
@@ -473,6 +525,8 @@ def gen_actions(R, n_agents, n_models, live=None):
             acts.append(f"create {R.randrange(n_models)} {R.randrange(NTYPES)} {R.choice([0, 1, 1, 2])} {R.choice([0, 0, 1])}")
         else:
             acts.append(f"unhold {R.randrange(0, n_agents + 1)}")
+    if R.random() < 0.12:
+        acts.append("raise")  # the callback ends by raising: the activation stops there
     return " ; ".join(acts)
 
 
@@ -498,6 +552,8 @@ def gen_world(R, flavor="c04", size=None):
             k = R.random()
             if k < 0.5 or (k >= 0.8 and not impl.sets):
                 return f"all:{R.randrange(nm)}"
+            if k >= 0.8 and R.random() < 0.5:
+                return "set:0"
             if k < 0.8:
                 m = R.randrange(nm)
                 present = [impl.CLS.index(c) for c in impl.models[m].agent_types]
@@ -537,11 +593,11 @@ def gen_world(R, flavor="c04", size=None):
             k = R.random()
             na = len(impl.wr)
             if flavor == "c02":
-                wts = [("create", .30), ("remove", .22), ("removeall", .04), ("unhold", .04), ("reorder", .10),
-                       ("mkset", .03), ("script", .12), ("act", .15)]
+                wts = [("create", .26), ("remove", .22), ("removeall", .04), ("unhold", .04), ("reorder", .10),
+                       ("mkset", .03), ("script", .12), ("direct", .04), ("act", .15)]
             else:
                 wts = [("create", .12), ("remove", .06), ("removeall", .01), ("unhold", .05), ("reorder", .06),
-                       ("mkset", .08), ("script", .27), ("act", .35)]
+                       ("mkset", .08), ("script", .25), ("direct", .02), ("act", .35)]
             acc, op = 0.0, wts[-1][0]
             for name, p in wts:
                 acc += p
@@ -555,6 +611,13 @@ def gen_world(R, flavor="c04", size=None):
                 emit(f"remove {a}")
                 if R.random() < 0.25:
                     emit(f"remove {a}")  # idempotence
+            elif op == "direct":
+                # register_agent / deregister_agent called by the program itself (also twice in a row)
+                a = an_agent()
+                kind = "register" if R.random() < 0.5 else "deregister"
+                emit(f"{kind} {a}")
+                if R.random() < 0.3:
+                    emit(f"{kind} {a}")
             elif op == "removeall":
                 emit(f"removeall {R.randrange(nm)}" if R.random() < 0.7 else f"setagents {R.randrange(nm)}")
             elif op == "unhold":
@@ -568,7 +631,7 @@ def gen_world(R, flavor="c04", size=None):
                 for _ in range(R.choice([1, 2, 3])):
                     a = an_agent() if R.random() < 0.85 else na + R.randrange(0, 3)
                     live = [i for i, r in enumerate(impl.wr) if r() is not None]
-                    emit(f"script {a} " + gen_actions(R, na, nm, live))
+                    emit(f"script {a} " + gen_actions(R, na, nm, live, len(impl.sets)))
             else:
                 kind = R.choice(["do", "do", "shuffledo", "shuffledo", "map", "gdo", "gmap"])
                 how = R.choice(["str", "fn"])
@@ -608,6 +671,26 @@ def exhaustive_activation(max_n, kinds, all_held_patterns, n4=False):
         for combo in itertools.product(acts, repeat=n):
             for held in [(0,) * n, (0, 1, 0, 1)]:
                 yield scen(n, combo, held, "do")
+
+
+def exhaustive_edits(max_n, kinds):
+    """the activated set is a program-made set of n agents; every family in which each agent, on its turn, does nothing /
+    raises / removes itself (and raises) / discards agent j from the activated set / removes and discards j / adds an
+    outsider to it — with all agents held by the program or none"""
+    import itertools
+
+    for n in range(1, max_n + 1):
+        acts = ["", "raise", "rmself", "rmself ; raise", f"add 0 {n}"] + [f"discard 0 {j}" for j in range(n)] \
+            + [f"rm {j} ; discard 0 {j}" for j in range(n)]
+        for combo in itertools.product(acts, repeat=n):
+            for h in (0, 1):
+                for kind in kinds:
+                    lines = ["scenario world", "model 3,1,4,1,5,9,2,6"]
+                    lines += [f"create 0 {[0, 2, 1, 3][i % 4]} {h} {i}" for i in range(n)] + [f"create 0 0 1 {n}"]
+                    lines.append("mkset 0 " + " ".join(map(str, range(n))))
+                    lines += [f"script {i} {a}" for i, a in enumerate(combo) if a]
+                    lines.append(f"{kind} set:0 1 str" if not kind.startswith("g") else f"{kind} set:0 ty 1 str")
+                    yield core.Scenario(lines, {"exhaustive": True})
 
 
 # --------------------------------------------------------------------------------------------
@@ -661,6 +744,8 @@ def oracle_c02(sc, obs):
                 bad.append(f"createn: `{line}` handed the constructors {got}, expected {want}")
             if len([e for e in events if e[0] == "create"]) != n:
                 bad.append(f"createn: `{line}` created {len([e for e in events if e[0] == 'create'])} agents")
+        # (register / deregister called directly: the property's clauses are the exactness clauses below; whether an
+        # unregistered agent makes deregister_agent raise KeyError is the model's business, i.e. the correspondence check's)
         if w[0] == "setagents" and not o.startswith("err Attr"):
             bad.append(f"setagents: assigning model.agents was not rejected (`{o.split(' || ')[0]}`)")
         for ev in events:
@@ -675,6 +760,17 @@ def oracle_c02(sc, obs):
                 if ty not in seen_ty[m]:
                     seen_ty[m].append(ty)
                 touched.add(m)
+            elif ev[0] == "register":
+                # register_agent called directly: nothing changes for a registered agent (the exactness clauses below then
+                # check that no view got a duplicate or a new order); an agent that had been removed is registered again
+                aid = ev[1]
+                m, ty, _ = created[aid]
+                touched.add(m)
+                if aid not in expect[m]:
+                    expect[m].append(aid)
+                    expect_t[m].setdefault(ty, []).append(aid)
+                    if ty not in seen_ty[m]:
+                        seen_ty[m].append(ty)
             elif ev[0] == "remove":
                 aid = ev[1]
                 m, ty, _ = created[aid]
@@ -763,7 +859,7 @@ def oracle_c04(sc, obs):
     created_at = {}
     model_of = {ev[1]: ev[2] for ev in tr if ev[0] == "create"}
     for l, o in zip(sc.lines, obs):
-        if o.startswith("err Unexpected") and l.split()[0] in ("do", "shuffle_do", "map", "gdo", "gmap"):
+        if o.startswith("err Unexpected") and l.split()[0] in ("do", "shuffledo", "map", "gdo", "gmap"):
             # the harness' own callback raised: it was not called as callback(agent, *args, **kwargs)
             bad.append(f"args: `{l}` raised {o.split()[-1]} inside the activation: the callable was not invoked as "
                        f"callable(agent, *args) with the arguments passed through unchanged")
@@ -786,6 +882,8 @@ def oracle_c04(sc, obs):
                     call["created"].add(aid)
             elif k == "remove":
                 registered.discard(ev[1])
+            elif k == "register":
+                registered.add(ev[1])
             elif k == "removeall":
                 m = ev[1]
                 # every agent of model m: the state after the op tells which are gone; use create info
@@ -806,14 +904,27 @@ def oracle_c04(sc, obs):
                 else:
                     visit = list(before)
                 call = {"kind": kind, "before": before, "visit": visit, "arg": arg, "tag": tag, "created": set(),
-                        "groups": call_groups if kind in ("gdo", "gmap") else None}
+                        "groups": call_groups if kind in ("gdo", "gmap") else None, "raised_by": None, "tok": tok,
+                        "cur": list(before)}
                 if len(set(before)) != len(before):
                     bad.append(f"set: duplicate member in {tok}: {before}")
                 # liveness of each member as of the last moment before its possible turn
                 snap = (set(registered), set(held))
                 pending = list(visit)
+            elif k == "raise" and call is not None:
+                call["raised_by"] = ev[1]
+            elif k == "setedit" and call is not None:
+                # a callback edited a program-made set; if it is the activated one, its expected content follows
+                _, ks, how_, b = ev
+                if call["tok"] == f"set:{ks}":
+                    if how_ == "add" and b not in call["cur"]:
+                        call["cur"].append(b)
+                    elif how_ == "discard" and b in call["cur"]:
+                        call["cur"].remove(b)
             elif k == "invoke" and call is not None:
                 _, aid, arg, tag = ev
+                if call["raised_by"] is not None:
+                    bad.append(f"after-raise: agent {aid} invoked by `{line}` after the callback of agent {call['raised_by']} raised")
                 if tag != call["tag"]:
                     bad.append(f"args: agent {aid} received the keyword argument tag={tag}, the call passed tag={call['tag']}")
                 if aid in invoked:
@@ -856,18 +967,28 @@ def oracle_c04(sc, obs):
                 result = ev[1]
             elif k == "endcall":
                 end = ev[1]
-                for s in pending:
+                raised = len(ev) > 2 and ev[2]
+                if call["raised_by"] is not None and not raised:
+                    bad.append(f"swallowed: the callback of agent {call['raised_by']} raised but `{line}` returned normally")
+                for s in ([] if call["raised_by"] is not None else pending):
                     if s in snap[0] or s in snap[1]:
                         bad.append(f"skipped: member {s} was {'registered' if s in snap[0] else 'held'} at its turn but `{line}` did not invoke it")
-                # the set's own order: surviving members keep their relative order; nobody new but agents
-                # the callbacks registered (model.agents / by-type sets grow by registration)
-                old = [a for a in call["before"] if a in end]
-                new = [a for a in end if a in call["before"]]
+                # the set's own order: surviving members keep their relative order (as edited by the callbacks themselves,
+                # if they discarded from / added to the activated set); nobody new but agents the callbacks registered
+                # (model.agents / by-type sets grow by registration) or added
+                cur = call["cur"]
+                old = [a for a in cur if a in end]
+                new = [a for a in end if a in cur]
                 if old != new:
-                    bad.append(f"set-order: `{line}` changed the order of the set: {call['before']} -> {end}")
+                    bad.append(f"set-order: `{line}` changed the order of the set: {call['before']} -> {end} (expected order {cur})")
                 for a in end:
-                    if a not in call["before"] and a not in call["created"]:
-                        bad.append(f"set-order: `{line}` put {a} into the set")
+                    if a not in cur and a not in call["created"]:
+                        bad.append(f"set-order: `{line}` put {a} into the set" if a not in call["before"] else
+                                   f"set-order: `{line}` kept {a}, which a callback discarded from the set")
+                for a in cur:
+                    # (a registry set loses a member with its deregistration, a program-made set only with its death)
+                    if a not in end and (a in registered or (a in held and call["tok"].startswith("set:"))):
+                        bad.append(f"set-order: `{line}` lost member {a} of the set (it is alive and nobody discarded it)")
                 if call["kind"] == "map" and result is not None:
                     want = [a * 100 + call["arg"] for a in invoked]
                     if result != want:
@@ -895,6 +1016,13 @@ def world_tags(sc, obs):
                 yield "branch:create-during-activation"
             if "dead" in kinds:
                 yield "branch:agent-died-during-activation"
+            if "raise" in kinds:
+                yield "branch:callback-raised"
+                yield "branch:callback-raised-" + w[0]
+            if "setedit" in kinds:
+                yield "branch:set-edited-during-activation"
+                if any(e[0] == "setedit" and w[1] == f"set:{e[1]}" for e in events):
+                    yield "branch:activated-set-edited-" + w[0]
             call = next((e for e in events if e[0] == "call"), None)
             if call:
                 inv = [e[1] for e in events if e[0] == "invoke"]
@@ -907,6 +1035,10 @@ def world_tags(sc, obs):
                 yield "createn:" + ("single-object" if t[0] == "s" else "split" if len(parse_arg(t)) == n else "whole-sequence")
             if len(w) > 6:
                 yield "createn:two-arguments"
+        if w[0] == "register" and "register" in kinds:
+            yield "direct:register"
+        if w[0] == "deregister":
+            yield "direct:deregister" + ("-rejected" if "rejected" in kinds else "" if "remove" in kinds else "-of-dead-agent-noop")
         if w[0] == "remove" and "remove" in kinds and "dead" not in kinds:
             yield "branch:removed-but-held-or-already-removed"
         if w[0] == "remove" and "remove" not in kinds:
